@@ -245,3 +245,68 @@ Print Assumptions C02_source_end_to_end_Open.
 Print Assumptions C02_source_end_to_end_Open_nil_error.
 Print Assumptions C02_source_end_to_end_NewDecryptStream.
 
+(* ============================== BLOCK 2: append to props/C02.v ============================== *)
+From SP Require Spec AcceptDefs AcceptEncProofs GoAstOpen GoAstRecv GoAstProofs4b GoAstProofs5a GoAstProofs7c GoEndToEndAuth GoAstProofs8c.
+Section C02_source_end_to_end_read.
+Import Spec AcceptDefs AcceptEncProofs GoLang GoLang2 GoAstOpen GoAstRecv GoAstProofs4b GoAstProofs7c GoEndToEndAuth GoAstProofs8c.
+Local Open Scope string_scope.
+
+(* authenticity of what ANY Read loop over the plaintext stream of the translated NewDecryptStream delivers *)
+Theorem C02_source_end_to_end_read_NewDecryptStream (c : crypto) (Hc : crypto_ok c) (pm : bytes -> gval) (s_sk r_sk : bytes)
+        (vd : validator) (senders : option (list bytes)) (VV r RING : gval) (input : bytes)
+        (mk rdr : gval) (L : list enc_msg) :
+  Forall (em_ok c s_sk) L -> em_headers_distinct c s_sk L ->
+  (N.of_nat (List.length input) < 18446744073709551616)%N ->
+  rdr_bytes r = Some input ->
+  let kr := mkRing [(r_sk, dh_pub c r_sk)] senders in
+  fst (run_func2 (ext_nds c pm vd kr) f_saltpack_NewDecryptStream [VV; r; RING]) = ORet [mk; rdr; VNil] ->
+  exists m k obj,
+    mk = g_mki m k /\ snd k = mki_receiver m /\ rdr = g_cr_new obj /\
+    (mki_sender m = dh_pub c s_sk -> mki_sender_anon m = false ->
+     forall F bufs, (10 <= F)%nat -> (S (List.length input) < F)%nat -> Forall (fun b : bytes => b <> []) bufs ->
+       reads_auth_shape
+         (fun full => exists msg hide pos,
+              In msg L /\ nth_error (em_rs msg) pos = Some (dh_pub c r_sk, hide) /\ full = map fst (em_packets msg))
+         (EncBreakL c s_sk r_sk vd kr L input)
+         (go_reads (gnc_dec c) F bufs rdr 0)).
+Proof. exact (go_NewDecryptStream_read_authentic c Hc pm s_sk r_sk vd senders VV r RING input mk rdr L). Qed.
+
+(* every input: the stream read with any buffers releases the model's plaintext (prefix) and ends with the model's error *)
+Theorem C02_source_end_to_end_read_of_model (c : crypto) (pm : bytes -> gval) (vd : validator) (kr : keyring) (VV RING rd : gval)
+        (wire : bytes) (m : mki) (out : stream_out) :
+  open_stream c vd kr wire = Ok (m, out) ->
+  rdr_bytes rd = Some wire ->
+  (N.of_nat (List.length wire) < 18446744073709551616)%N ->
+  exists (k : bytes * bytes) (obj : gval),
+    In k (kr_keys kr) /\ snd k = mki_receiver m /\
+    fst (run_func2 (ext_nds c pm vd kr) f_saltpack_NewDecryptStream [VV; rd; RING]) = ORet [g_mki m k; g_cr_new obj; VNil] /\
+    forall F bufs, (10 <= F)%nat -> (S (List.length wire) < F)%nat -> Forall (fun p : bytes => p <> []) bufs ->
+      let res := go_reads (gnc_dec c) F bufs (g_cr_new obj) 0 in
+      reads_spec res (List.concat (so_chunks out)) (so_end out) /\
+      ((List.length (List.concat (so_chunks out)) + List.length wire + 2 <= List.length bufs)%nat -> reads_done res).
+Proof. exact (go_NewDecryptStream_reads_of_model c pm vd kr VV RING rd wire m out). Qed.
+
+(* round trip: a spec-following message, read with enough non-empty buffers of any sizes: the whole plaintext, then io.EOF *)
+Theorem C02_source_end_to_end_read_accepts_spec (c : crypto) (Hc : crypto_ok c) (pm : bytes -> gval) (p : S_enc) (sk : bytes)
+        (hide : bool) (i : nat) (vd : validator) (VV RING rd : gval) :
+  enc_params_ok c p -> admits vd (se_major p) (se_minor p) ->
+  nth_error (se_rcpts p) i = Some (dh_pub c sk, hide) ->
+  rdr_bytes rd = Some (S_encode_encryption c p) ->
+  (N.of_nat (List.length (S_encode_encryption c p)) < 18446744073709551616)%N ->
+  let kr := mkRing [(sk, dh_pub c sk)] None in
+  (exists (m : mki) (obj : gval),
+      fst (run_func2 (ext_nds c pm vd kr) f_saltpack_NewDecryptStream [VV; rd; RING])
+      = ORet [g_mki m (sk, dh_pub c sk); g_cr_new obj; VNil] /\
+      forall F bufs, (10 <= F)%nat -> (S (List.length (S_encode_encryption c p)) < F)%nat -> Forall (fun b : bytes => b <> []) bufs ->
+        let res := go_reads (gnc_dec c) F bufs (g_cr_new obj) 0 in
+        reads_spec res (List.concat (se_chunks p)) EOF /\
+        ((List.length (List.concat (se_chunks p)) + List.length (S_encode_encryption c p) + 2 <= List.length bufs)%nat ->
+         res = Some (Z.of_nat (List.length (List.concat (se_chunks p))), VErr "io.EOF" [])))
+  \/ S_foreign_box_opens c p sk.
+Proof. exact (go_NewDecryptStream_read_accepts_spec c Hc pm p sk hide i vd VV RING rd). Qed.
+End C02_source_end_to_end_read.
+Print Assumptions C02_source_end_to_end_read_NewDecryptStream.
+Print Assumptions C02_source_end_to_end_read_of_model.
+Print Assumptions C02_source_end_to_end_read_accepts_spec.
+
+
